@@ -590,8 +590,8 @@ def execute(case, stats):
                             V(step, op, "inplace-vs-outofplace", {"out_of_place_raised": oop_err})
                         elif not viol:
                             tol = tol_op
-                            rl = [r] if h[0] == "arr" else list(r._xyz.values())
-                            ol = [oop] if h[0] == "arr" else list(oop._xyz.values())
+                            rl = [r] if h[0] == "arr" else core.vcomps(r)
+                            ol = [oop] if h[0] == "arr" else core.vcomps(oop)
                             for a_, b_ in zip(rl, ol):
                                 if not np.allclose(np.asarray(a_.values, dtype=float), np.asarray(b_.values, dtype=float), rtol=tol, atol=atol_op):
                                     V(step, op, "inplace-vs-outofplace", {"values_inplace": np.asarray(a_.values).tolist(), "values_out_of_place": np.asarray(b_.values).tolist()})
@@ -605,7 +605,7 @@ def execute(case, stats):
                         stats.inc(f"probe.inplace_{sym}_{rk}")
                         # y untouched (when it is a fresh object)
                         if rk in ("arr", "vec") and not viol:
-                            yl = [y] if rk == "arr" else list(y._xyz.values())
+                            yl = [y] if rk == "arr" else core.vcomps(y)
                             for yy, want in zip(yl, yvals):
                                 if not np.array_equal(np.asarray(yy.values, dtype=float), want) or real_unit_sig(yy.unit)[1] != yu.dims:
                                     V(step, op, "rhs-modified", {"y": np.asarray(yy.values).tolist()})
